@@ -4,6 +4,7 @@ mod c19;
 mod c20;
 mod c04;
 mod c17;
+mod c01;
 mod c06;
 mod c16;
 mod c10;
@@ -54,6 +55,20 @@ fn main() {
         "c20" => c20::run(&args),
         "c04" => c04::run(&args),
         "c17" => c17::run(&args),
+        "code" => {
+            // vh code file.bas: the instruction list as the correspondence sees it
+            let src = std::fs::read_to_string(&args.extra[0]).unwrap();
+            match c01::compile(&src) {
+                Ok(igr) => {
+                    for (i, ip) in igr.instructions.iter().enumerate() {
+                        println!("{:4} {:?}  =>  {}", i, ip.element, c01::coq_instr(&ip.element));
+                    }
+                    println!("marks {:?}", igr.statement_addresses);
+                }
+                Err(e) => println!("{}", e),
+            }
+        }
+        "c01" => c01::run(&args),
         "c06" => c06::run(&args),
         "c16" => c16::run(&args),
         "c10" => c10::run(&args),
